@@ -232,7 +232,7 @@ package linker
 // C10: an entry-point chunk must import, from the chunk that declares it, every symbol it re-exports. An export
 // is resolved to (file, ref); whether that ref is itself an import is recorded in the ImportsToBind table OF THAT
 // FILE, so the lookup that follows a re-export to its declaring symbol must read the resolved file's table.
-//@ flow follow-reexport-in-owning-file C10: func=(*linkerContext).computeCrossChunkDependencies ; in=linker ; site=lookup export.Ref ; mappath=c.graph.Files[export.SourceIndex].InputFile.Repr.Meta.ImportsToBind
+//@ flow follow-reexport-in-owning-file C10: func=(*linkerContext).computeCrossChunkDependencies ; in=linker ; site=lookup *.Ref ; mappath=*.Files[*.SourceIndex].InputFile.Repr.Meta.ImportsToBind
 
 // ----------------------------------------------------------------------------------------------
 // C16 (zero-annotation safety sweep): for ALL arguments (no precondition), no index, slice, nil-dereference,
@@ -246,3 +246,8 @@ package linker
 //@   opt auto-counters 1
 //@   prop C16
 
+
+// C12: a file imported under a condition (@import url() layer(x) supports(..) media) contributes its rules WRAPPED in
+// that condition. Cross-file duplicate removal must compare the wrapped rules: an unconditional copy of a rule is
+// not a duplicate of a later copy that only applies under a condition.
+//@ flow dedupe-after-wrapping C12: func=(*linkerContext).generateChunkCSS ; in=linker ; site=call RemoveDeadRulesInPlace ; argpath=2:call wrapRulesWithConditions(*)#0
